@@ -9,7 +9,8 @@ PROP = {
             "crash model: per file the synced bytes plus none / all / a seeded prefix of the unsynced appended bytes survive; a file whose directory entry was never synced may vanish; an unsynced deletion may be undone",
             "records are self-describing (`id:len:payload` + separator) and never contain the separator byte; separators are single bytes (multi-byte separators interrupted mid-separator are not generated)",
             "records of a batch that was given up (flush/sync failure => no retry, or retries exhausted) or was in flight at a crash are not required to be anywhere",
-            "records in files that retention deleted through the filesystem API count as durable until that deletion",
+            "records in a file that retention deleted through the filesystem API count as durable until that deletion, but only if the deletion happened in a LATER batch than the one that acknowledged them: when batch k returns Ok its records must sit in synced bytes of a file that still exists (the fake filesystem keeps an unlinked file writable through its open handle, as POSIX does)",
+            "end-to-end lane: a third of the scenarios use the default JSON writer, the rest the harness's own writer; in three quarters of the scenarios every 2nd/3rd/7th event of every emitting thread fails to format part-way (bytes already in the FileBuf, or a Display/Debug value that writes text and then returns fmt::Error) and is followed by ordinary events of the same thread; every line must be byte for byte the record of one successfully formatted event and event_format_failed must equal the number of scripted failures",
         ],
         "lanes": [
             native("c10", pkg="monx"),
